@@ -821,7 +821,8 @@ def snap(x, d, depth=0):
         return ("Image", type(x).__name__, snap(x.img, d), snap(x.dimensions, d), snap(x.origin, d), snap(x.date, d),
                 snap(x.time, d), repr(sorted(meta.items(), key=lambda kv: kv[0])))
     if isinstance(x, np.ndarray):
-        return ("nd", type(x).__name__, str(x.dtype), x.shape, tuple(x.ravel().tolist()) if x.size <= 256 else x.tobytes())
+        # compared bit-wise (NaN-safe); the values are kept as text for the replay
+        return ("nd", type(x).__name__, str(x.dtype), x.shape, str(x.ravel().tolist()) if x.size <= 256 else "", x.tobytes())
     if isinstance(x, (list, tuple)):
         return (type(x).__name__, tuple(snap(y, d, depth + 1) for y in x))
     if isinstance(x, dict):
@@ -872,7 +873,10 @@ def rand_image(ctx, d, kind, shape=None):
     if kind in ("S2", "S2u8", "S2f32", "S2b", "S2u16"):
         shape = shape or (rnd.randint(3, 6), rnd.randint(3, 6))
         dtype = {"S2": float, "S2u8": np.uint8, "S2f32": np.float32, "S2b": bool, "S2u16": np.uint16}[kind]
-        data = r.randint(0, 5, size=shape).astype(dtype) if dtype is not float else r.randint(0, 16, size=shape) / 4.0
+        if dtype in (np.uint8, np.uint16):
+            data = r.randint(0, np.iinfo(dtype).max + 1, size=shape).astype(dtype)  # products with scalars wrap around
+        else:
+            data = r.randint(0, 5, size=shape).astype(dtype) if dtype is not float else r.randint(0, 16, size=shape) / 4.0
         return d.ScalarImage(data, dimensions=dims2(2), name=rnd.choice([None, "probe"]))
     if kind == "S2pos":
         shape = shape or (rnd.randint(3, 5), rnd.randint(3, 5))
@@ -1085,10 +1089,16 @@ def registry(d):
 
     @form("superpose", ["S2", "S2f32"])
     def _(ctx, a):
-        b = twin(ctx, d, a)
-        if ctx.rng.random() < 0.5:
-            b = d.ScalarImage(b.img, dimensions=list(a.dimensions), origin=[float(a.origin[0]) + a.dimensions[1] / 2, float(a.origin[1])])
-        lst = [a, b]
+        # images at different positions / of different extent, in any order: the first one need not define the common origin
+        lst = [a]
+        for _ in range(ctx.rng.randint(1, 2)):
+            b = twin(ctx, d, a)
+            if ctx.rng.random() < 0.75:
+                o = [float(a.origin[0]) + ctx.rng.choice([-1.0, -0.5, 0.0, 0.5]) * a.dimensions[1],
+                     float(a.origin[1]) + ctx.rng.choice([-0.5, 0.0, 0.5, 1.0]) * a.dimensions[0]]
+                b = d.ScalarImage(b.img, dimensions=list(a.dimensions), origin=o)
+            lst.append(b)
+        ctx.rng.shuffle(lst)
         return (lambda: d.superpose(lst)), [lst]
 
     @form("stack", ["S2", "S2u8", "V2", "S3", "S1", "O2u8"])
@@ -1184,10 +1194,35 @@ def registry(d):
         return (lambda: d.ScalarImage(arr, origin=o, date=dates, series=True, dimensions=[1.0, 1.0])), [arr, o, dates]
 
     # models / integration / distances ------------------------------------------------------------
-    R["ClipModel(image)"] = (["S2", "S2f32", "S3"], lambda ctx, a: ((lambda: d.ClipModel(**{"min value": 1.0, "max value": 2.0})(a)), [a]))
-    R["ClipModel(array)"] = (["S2"], lambda ctx, a: ((lambda: d.ClipModel(**{"min value": 1.0, "max value": 2.0})(a.img)), [a]))
-    R["LinearModel(array)"] = (["S2", "S3"], lambda ctx, a: ((lambda: d.LinearModel(scaling=2.0, offset=1.0)(a.img)), [a]))
-    R["ScalingModel(image)"] = (["S2", "S3"], lambda ctx, a: ((lambda: d.ScalingModel(scaling=2.0)(a)), [a]))
+    def model_forms():
+        def params(ctx):
+            return ctx.rng.choice([1.0, 1.0, 2.0, 0.5]), ctx.rng.choice([0.0, 1.0, -0.25])
+
+        def lin_arr(ctx, a):
+            sc, off = params(ctx)
+            m = d.LinearModel(scaling=sc, offset=off) if ctx.rng.random() < 0.8 else d.LinearModel(offset=off)
+            return (lambda: m(a.img)), [a, sc, off]
+
+        def scal_arr(ctx, a):
+            sc, _ = params(ctx)
+            return (lambda: d.ScalingModel(scaling=sc)(a.img)), [a, sc]
+
+        def scal_img(ctx, a):
+            sc, _ = params(ctx)
+            return (lambda: d.ScalingModel(scaling=sc)(a)), [a, sc]
+
+        def clip(ctx, a, on_image):
+            lo, hi = ctx.rng.choice([0.0, 1.0]), ctx.rng.choice([None, 2.0, 3.0])
+            m = d.ClipModel(**{"min value": lo, "max value": hi})
+            return (lambda: m(a if on_image else a.img)), [a, lo, hi]
+
+        R["LinearModel(array)"] = (["S2", "S2f32", "S2u8", "S3", "V2"], lin_arr)
+        R["ScalingModel(array)"] = (["S2", "S2f32", "S2u8"], scal_arr)
+        R["ScalingModel(image)"] = (["S2", "S3", "S2f32"], scal_img)
+        R["ClipModel(image)"] = (["S2", "S2f32", "S3"], lambda ctx, a: clip(ctx, a, True))
+        R["ClipModel(array)"] = (["S2", "S2f32", "S2u8"], lambda ctx, a: clip(ctx, a, False))
+
+    model_forms()
 
     @form("Geometry.integrate", ["S2", "S3", "S2f32"])
     def _(ctx, a):
@@ -1225,6 +1260,12 @@ def later_writes(ctx, d, name, res, args, before, chain=None):
     """in-place operations a user may apply to a RESULT afterwards; the ARGUMENTS of the call must stay as they were.
     Pixel writes through the result are exempt only for the documented view-returning forms."""
     if not isinstance(res, d.Image):
+        return
+    if any(res is x for x in args):
+        # the call handed its argument back (e.g. ScalingModel with unit scaling returns the signal itself): there is no
+        # second object a later write could be confined to; recorded, not judged
+        ctx.cov.setdefault("forms_returning_their_argument", {}).setdefault(name, 0)
+        ctx.cov["forms_returning_their_argument"][name] += 1
         return
 
     def recheck(what):
@@ -1300,9 +1341,9 @@ def check_arith(ctx, name, args, res):
     if not isinstance(res, d.Image):
         ctx.fail(f"C17:{base}({sig_in}):not-an-image", f"{name} returned {type(res).__name__}", {"form": name})
         return
-    exact = tag in ("", "int", "float", "bool", "image")
-    same = res.img.shape == ref.shape and (np.array_equal(res.img, ref) if exact else np.allclose(res.img, ref, rtol=1e-6))
-    if same and exact and base in ("add", "sub", "mul", "rmul") and res.img.dtype != ref.dtype:
+    # the same arithmetic on the raw arrays, value AND dtype, for python and numpy scalars alike
+    same = res.img.shape == ref.shape and np.array_equal(res.img, ref)
+    if same and base in ("add", "sub", "mul", "rmul") and res.img.dtype != ref.dtype:
         same = False
     if not same:
         ctx.fail(f"C17:{base}({sig_in}):differs-from-numpy",
@@ -1399,7 +1440,7 @@ def chains(ctx, d, R, n):
                 tracked.append((res, snap(res, d), f"result-of-{nm}"))
 
 
-BOOST = {"random_patches": 12, "subregion[voxels]": 3, "subregion[coordinates,outside]": 2}
+BOOST = {"random_patches": 12, "LinearModel(array)": 3, "superpose": 3, "subregion[voxels]": 3, "subregion[coordinates,outside]": 2}
 
 
 def oracle(ctx, d):
